@@ -615,7 +615,11 @@ def cases(tier, check='values'):
                              ('qqq', ('edge_node', 'edge_face'), dict(start_index=0, fill='nan', extra=dict(start_index_as_text=True))),
                              # tables built in memory in other integer types (nothing in the encoding)
                              ('tqp', ('edge_node', 'face_edge'), dict(start_index=1, fill='attr', dtype='int64')),
-                             ('tqp', ('edge_node', 'edge_face'), dict(start_index=0, fill='attr', dtype='int16', fill_value=-1))):
+                             ('tqp', ('edge_node', 'edge_face'), dict(start_index=0, fill='attr', dtype='int16', fill_value=-1)),
+                             # decoded from files whose fill value is the largest (smallest) value of the stored integer type
+                             ('tqp', ('edge_node', 'face_edge'), dict(start_index=0, fill='nan', dtype='int64', fill_value=2 ** 63 - 1)),
+                             ('tqp', ('edge_node', 'edge_face'), dict(start_index=1, fill='nan', dtype='int32', fill_value=-2 ** 31)),
+                             ('tqp', ('edge_node', 'face_edge'), dict(start_index=1, fill='nan', dtype='uint8', fill_value=255))):
         yield Case(f'{check}:mesh:{mesh}:{"+".join(supply)}:start{kw["start_index"]}:{kw["fill"]}:fill{kw.get("fill_value")}:coords{int(kw.get("coords_as_coords", False))}:edges{int(kw.get("with_edges", True))}:{kw.get("dtype", "int32")}{":" + "+".join(kw["extra"]) if kw.get("extra") else ""}{":transposed" if kw.get("transposed") else ""}:buf0:clip', body_mesh,
                    dict(mesh=mesh, supply=supply, buffer=0, via='clip', check=check, **kw), patches=_patches, max_paths=2000)
     # one-based integer tables whose fill value 0 is kept as an attribute; one ring of neighbours
